@@ -18,14 +18,23 @@ def one(e, base):
     d = os.path.join(base, e['id'])
     os.makedirs(d)
     copy_repo(d)
-    p = os.path.join(d, e['file'])
-    s = open(p).read()
-    for old, new in e['edits']:
-        if s.count(old) != 1:
-            shutil.rmtree(d, ignore_errors=True)
-            return {'id': e['id'], 'status': 'BAD-PATTERN', 'detail': 'matches %d times' % s.count(old)}
-        s = s.replace(old, new)
-    open(p, 'w').write(s)
+    if e.get('generator') == 'rename-python-locals':
+        # every local variable of every function of the Python package gets a new name
+        # (scope-aware, see rename_locals.py; the renamed tree passes the test suite)
+        import glob
+        from rename_locals import rename_module
+        for p in glob.glob(os.path.join(d, 'optree', '**', '*.py'), recursive=True):
+            out, _ = rename_module(open(p).read())
+            open(p, 'w').write(out)
+    else:
+        p = os.path.join(d, e['file'])
+        s = open(p).read()
+        for old, new in e['edits']:
+            if s.count(old) != 1:
+                shutil.rmtree(d, ignore_errors=True)
+                return {'id': e['id'], 'status': 'BAD-PATTERN', 'detail': 'matches %d times' % s.count(old)}
+            s = s.replace(old, new)
+        open(p, 'w').write(s)
     alarms, errors = [], []
     for i in range(1, 21):
         pr = 'C%02d' % i
